@@ -146,6 +146,13 @@ class Module:
         ref_funcs = _functions_ref().get(name)
         self.inlined = Inliner(raw, name, set(ref_funcs)).run() if ref_funcs is not None else []
         self.tree = normalise(raw)
+        if ref_funcs is not None:
+            # helper calls that sat inside a comprehension / conditional expression become reachable for the inliner once those are
+            # desugared: one more round (only when something is inlined is the normal form recomputed)
+            again = Inliner(self.tree, name, set(ref_funcs)).run()
+            if again:
+                self.inlined = list(self.inlined) + list(again)
+                self.tree = normalise(self.tree)
         self.functions = {}  # qualname -> FunctionDef
         self.classes = {}  # name -> ClassDef
         self.constants = {}  # name -> ast expr (module-level single-target assigns; last one wins)
